@@ -251,6 +251,11 @@ fn prefix_pool(rng: &mut Rng, n4: usize, n6: usize) -> Vec<String> {
         let l = if rng.chance(2, 3) { *rng.pick(&l6) } else { rng.below(129) as u8 };
         pool.push(tok(6, a, l));
     }
+    // IPv6 prefixes whose text has a dotted tail (IPv4-mapped and IPv4-compatible addresses)
+    for (a, l) in [(0xffffu128 << 32, 96u8), ((0xffffu128 << 32) | 0x0a00_0000, 104), ((0xffffu128 << 32) | 0xc000_0201, 128),
+        ((0xffffu128 << 32) | 0xffff_ffff, 128), (0x0a00_0001u128, 128), (0u128, 96), ((0xffffu128 << 32) | 0xc000_0200, 120)] {
+        pool.push(tok(6, a, l));
+    }
     pool.sort();
     pool.dedup();
     pool
